@@ -91,6 +91,18 @@ CHECKS = {
              "in evidence. PATHEXT, stable-directory caching and what execvp really runs are outside. One defect repaired, one known finding listed.",
         ref="DESIGN.md 4 C08",
     ),
+    "C13": dict(
+        text="Crash-point and fault analysis of every history-rewriting operation of the JSON backend (background flush, flush at exit, "
+             "history delete, erasedups, stale-lock unlock during GC enumeration) on the real json.py / lazyjson.py code over a model file "
+             "system with inodes: the step at which the process is killed is case-split, the number of buffered characters that had "
+             "reached the disk is an unbounded symbolic integer decided by z3, and separately every single file-system call is made to "
+             "fail (OSError, or a short os.write). Afterwards every history file must be exactly its complete previous or complete new "
+             "version (hence loadable), never truncated or missing.",
+        note="Bounds: the concrete initial files built at start-up (1-2 files, 1-3 commands), <=14 file-system steps per operation. The "
+             "model's contract (truncate at open, buffered writes durable as any prefix until close returns, atomic replace, no fsync "
+             "modelling) is listed in evidence. SQLite/WAL and signal-driven flush are outside. One defect repaired.",
+        ref="DESIGN.md 4 C13",
+    ),
 }
 
 NA = {
